@@ -80,6 +80,9 @@ def run(an: Analysis, rep):
     rep.run(r035, an, rep)
     rep.run(r03w, an, rep)
     rep.run(r03f, an, rep)
+    from . import c05 as _c05k
+    from .common import SharedRules as _SR3
+    rep.run(_c05k.r05k, an, _SR3(rep, "R03.K2", "constants are handed to CodeType with value and type unchanged (shared with C05's R05.K2): 'every operand resolves to exactly the given ... constant'"), "R05.K2")
     rep.run(r036, an, rep)
     rep.run(r037, an, rep)
     rep.run(r038, an, rep)
